@@ -319,6 +319,84 @@ PROPS["C18"] = {
 }
 
 
+
+# ------------------------------------------------------------------------------------------------
+# sanitizer jobs (heap-owning element: a double drop / leak / use-after-free is a real memory error)
+# ------------------------------------------------------------------------------------------------
+
+def with_jobs(pid, fn):
+    base = PROPS[pid]["jobs"]
+    PROPS[pid] = dict(PROPS[pid], jobs=(lambda tier, base=base: base(tier) + fn(tier)))
+
+
+def S(cfg, *args, shards=16, **kw):
+    """sanitizer job: never counted into distinct_nontrivial (the native jobs count)"""
+    return J(cfg, *args, shards=shards, count_distinct=False, **kw)
+
+
+def q(tier, a, b):
+    return a if tier == "quick" else b
+
+
+with_jobs("C03", lambda tier: [
+    S("asan", "sweep", "--n", ns(0, q(tier, 3, 5))),
+    S("asan", "drain", "--n", ns(0, q(tier, 4, 6))),
+    S("asan", "iters", "--n", ns(0, q(tier, 3, 5))),
+    S("miri", "sweep", "--n", ns(0, q(tier, 2, 3)), "--lean", 1, "--routes", "0,3", "--noforget", 1, "--sample", q(tier, 12, 2)),
+] + ([] if tier == "quick" else [
+    S("asan", "random", "--n", RANDOM_NS, "--ops", 60000),
+    S("miri-tb", "sweep", "--n", ns(0, 3), "--lean", 1, "--routes", "1,6", "--noforget", 1, "--sample", 3),
+    S("relheap-mc", "sweep", "--n", ns(0, 3), "--lean", 1, "--routes", "0,1,3", "--noforget", 1),
+    S("miri", "ctor", "--n", ns(0, 3), "--sample", 2),
+]))
+
+with_jobs("C04", lambda tier: [
+    S("miri", "nonint", "--n", ns(0, q(tier, 2, 3)), "--lean", 1, "--nopoke", 1, "--routes", "0,1,3", "--noforget", 1, "--sample", q(tier, 12, 2)),
+    S("rel-mc", "nonint", "--n", ns(0, q(tier, 2, 4)), "--lean", 1, "--nopoke", 1, "--routes", "0,1,3", "--sample", q(tier, 4, 1)),
+] + ([] if tier == "quick" else [
+    S("miri-plain", "nonint", "--n", ns(0, 3), "--lean", 1, "--nopoke", 1, "--routes", "0,2,3", "--noforget", 1, "--sample", 3),
+    S("rel-mc", "cmp", "--n", 3),
+]))
+
+with_jobs("C05", lambda tier: [
+    S("asan", "faults", "--n", ns(0, q(tier, 3, 5)), "--kinds", "drop"),
+    S("miri-noleak", "faults", "--n", ns(0, q(tier, 2, 3)), "--kinds", "drop", "--lean", 1, "--routes", "0,3", "--sample", q(tier, 3, 1)),
+])
+
+with_jobs("C06", lambda tier: [
+    S("asan", "faults", "--n", ns(0, q(tier, 3, 5)), "--kinds", "user"),
+    S("miri", "faults", "--n", ns(0, q(tier, 2, 3)), "--kinds", "user", "--lean", 1, "--routes", "0,3", "--sample", q(tier, 3, 1)),
+] + ([] if tier == "quick" else [
+    S("relheap-mc", "faults", "--n", ns(0, 3), "--kinds", "user", "--lean", 1, "--routes", "0,3"),
+]))
+
+with_jobs("C07", lambda tier: [
+    S("miri", "sweep", "--n", ns(0, q(tier, 2, 3)), "--routes", "0,3", "--opfilter", "mut,make_contiguous", "--noforget", 1, "--sample", q(tier, 24, 4)),
+    S("miri", "iters", "--n", ns(0, q(tier, 2, 3)), "--routes", "0", "--sample", q(tier, 16, 3)),
+] + ([] if tier == "quick" else [
+    S("miri-tb", "iters", "--n", ns(0, 3), "--routes", "1", "--sample", 4),
+]))
+
+with_jobs("C08", lambda tier: [
+    S("miri", "iters", "--n", ns(0, q(tier, 2, 3)), "--routes", "1", "--sample", q(tier, 16, 3)),
+])
+
+with_jobs("C09", lambda tier: [
+    S("asan", "drain", "--n", ns(0, q(tier, 4, 6))),
+    S("miri", "drain", "--n", ns(0, q(tier, 3, 4)), "--lean", 1, "--routes", "0,3", "--sample", q(tier, 10, 2)),
+] + ([] if tier == "quick" else [
+    S("miri-tb", "drain", "--n", ns(0, 3), "--lean", 1, "--routes", "1", "--sample", 2),
+]))
+
+with_jobs("C10", lambda tier: [
+    S("asan", "drain", "--forget", 1, "--n", ns(0, q(tier, 4, 6))),
+    S("miri-noleak", "drain", "--forget", 1, "--n", ns(0, q(tier, 3, 4)), "--lean", 1, "--routes", "0,3", "--sample", q(tier, 10, 2)),
+])
+
+with_jobs("C19", lambda tier: [
+    S("miri-plain", "zst", "--z", "0,2,8,10", "--ops", 60, "--sample", q(tier, 2500, 300)),
+])
+
 NATIVE_NOTE = "Trusted base: the harness itself (element type, ledger, model written from the documentation, orchestrator), rustc/cargo, the determinism of the crate (no threads/clock/IO). Held only on the executions produced; nothing is proved."
 
 MANIFEST_TEXT = {
